@@ -60,6 +60,7 @@ Fixpoint serial_size (t : cqltype) : option Z :=
   match t with
   | TScalar s => scalar_size s
   | TVector t' n => match serial_size t' with Some k => Some (n * k) | None => None end
+  | TFrozen t' | TReversed t' => serial_size t'      (* encoded exactly as the wrapped type (repo fix for C28-4) *)
   | _ => None
   end.
 
